@@ -345,8 +345,109 @@ def run_misuse(w) -> None:
             loaded.unload()
 
 
+AWAITABLE_VALUES_SOURCE = '''
+import icontract
+
+SEEN = []
+
+
+class Ticket:
+    """An awaitable value of its own right (the way an asyncio.Future or a Task is); awaiting it is an observable operation."""
+
+    def __init__(self, name):
+        self.name = name
+        self.awaited = 0
+
+    def __await__(self):
+        self.awaited += 1
+        return iter(())
+
+
+def take(box):
+    return box["ticket"]
+
+
+def record(box, result, OLD):
+    SEEN.append(("post", OLD.before))
+    return True
+
+
+def record_falsy(box, result, OLD):
+    SEEN.append(("post", OLD.before))
+    return False
+
+
+def make_error(OLD):
+    SEEN.append(("error", OLD.before))
+    return ValueError("violated")
+
+
+@icontract.snapshot(take, name="before")
+@icontract.ensure(record)
+{a}def f(box):
+    box["ticket"] = None
+    return 1
+
+
+@icontract.snapshot(lambda box: box["ticket"], name="before")
+@icontract.ensure(record_falsy, error=make_error)
+{a}def g(box):
+    box["ticket"] = None
+    return 1
+'''
+
+
+def run_awaitable_values(w) -> None:
+    """The captured value is an awaitable object of its own right (not a coroutine): postconditions and error factories must see
+    that very object as OLD.<name>, for sync and async callables alike, and the checker must not have awaited it."""
+    import asyncio  # pylint: disable=import-outside-toplevel
+
+    for is_async in (False, True):
+        loaded = prog.load_source(AWAITABLE_VALUES_SOURCE.replace("{a}", "async " if is_async else ""), w.scratch())
+        mod = loaded.module
+        try:
+            for fname in ("f", "g"):
+                for kind in ("object-with-__await__", "finished-future"):
+                    loop = None
+                    if kind == "finished-future":
+                        loop = asyncio.new_event_loop()
+                        ticket = loop.create_future()
+                        ticket.set_result("outcome")
+                    else:
+                        ticket = mod.Ticket("t")
+                    del mod.SEEN[:]
+                    try:
+                        res = getattr(mod, fname)({"ticket": ticket})
+                        if is_async:
+                            res = loop.run_until_complete(res) if loop is not None else probe.drive(res)
+                        outcome = "returned"
+                    except ValueError:
+                        outcome = "violation"
+                    except BaseException as err:  # pylint: disable=broad-except
+                        outcome = "raised {}: {}".format(type(err).__name__, str(err)[:100])
+                    finally:
+                        if loop is not None:
+                            loop.close()
+                    w.count("old_identity_checks", len(mod.SEEN))
+                    w.count("awaitable_value_calls")
+                    w.case(("awaitable-captured-value", fname, kind, is_async))
+                    want_outcome = "returned" if fname == "f" else "violation"
+                    want_seen = [("post", ticket)] if fname == "f" else [("post", ticket), ("error", ticket)]
+                    awaited = getattr(ticket, "awaited", 0)
+                    if outcome != want_outcome or len(mod.SEEN) != len(want_seen) or any(a[0] != b[0] or a[1] is not b[1] for a, b in zip(mod.SEEN, want_seen)) \
+                            or awaited:
+                        w.violation("C08/captured-awaitable-value-not-handed-over-as-captured", "{}{}: the capture returned {!r}; the postcondition / "
+                                    "error factory saw {!r} as OLD.before, the call {}, the value was awaited {} time(s) by the checker".format(
+                                        "async " if is_async else "", fname, ticket, mod.SEEN, outcome, awaited),
+                                    {"awaitable_values": fname, "async": is_async, "kind": kind})
+        finally:
+            loaded.unload()
+
+
 def run(w) -> None:
     w.exhaustive = False
+    if w.shard == 1 % w.nshards:
+        run_awaitable_values(w)
     for meta, spec in specs(w):
         w.count("programs")
         run_spec(w, spec, meta)
@@ -355,6 +456,9 @@ def run(w) -> None:
 
 
 def replay(case, w) -> None:
+    if "awaitable_values" in case:
+        run_awaitable_values(w)
+        return
     if "prog" not in case:
         run_misuse(w)
         return
